@@ -127,9 +127,36 @@ func newHS(s *Sem) *hsInterp {
 // transport is disconnected.
 func (h *hsInterp) feasible(ifi *ssa.If, branch bool, S string) (ok bool, dead bool) {
 	// an error test on a call that may itself change the state says nothing about the state afterwards
-	if call, _, _, isErr := errTest(ifi, branch); isErr {
+	if call, _, isNil, isErr := errTest(ifi, branch); isErr {
 		if g := call.Call.StaticCallee(); g != nil && h.mutating[g] {
 			return true, false
+		}
+		// the failing edge of a pure predicate wrapper whose state requirements S satisfies: only the transport can be
+		// the reason, i.e. the connection is gone
+		if g := call.Call.StaticCallee(); g != nil && !isNil && g.Pkg == h.s.p.Lime && !h.relevant[g] {
+			facts := h.s.subst(h.s.nilFacts(g, 0), call)
+			stateOK, hasConn := true, false
+			for _, a := range facts {
+				if a.Param >= 0 {
+					stateOK = false
+					continue
+				}
+				switch a.Kind {
+				case "state==":
+					if a.Val != S {
+						stateOK = false
+					}
+				case "state!=":
+					if a.Val == S {
+						stateOK = false
+					}
+				case "connected":
+					hasConn = true
+				}
+			}
+			if stateOK && hasConn {
+				return true, true
+			}
 		}
 	}
 	atoms := h.s.atomsOfBool(ifi.Cond, branch, 0)
